@@ -43,3 +43,74 @@ func (r *Raft) VerifDump() VerifDumpT {
 	}
 	return d
 }
+
+// ---- commitment (C05) ----
+
+type VerifCommitment struct {
+	c  *commitment
+	ch chan struct{}
+}
+
+func VerifNewCommitment(cfg Configuration, startIndex uint64) *VerifCommitment {
+	ch := make(chan struct{}, 1)
+	return &VerifCommitment{c: newCommitment(ch, cfg, startIndex), ch: ch}
+}
+func (v *VerifCommitment) Match(id ServerID, idx uint64)    { v.c.match(id, idx) }
+func (v *VerifCommitment) SetConfiguration(c Configuration) { v.c.setConfiguration(c) }
+func (v *VerifCommitment) CommitIndex() uint64              { return v.c.getCommitIndex() }
+
+// Notified reports (and clears) whether the commit channel was signalled.
+func (v *VerifCommitment) Notified() bool {
+	select {
+	case <-v.ch:
+		return true
+	default:
+		return false
+	}
+}
+
+// ---- nextConfiguration (C07) ----
+
+func VerifNextConfiguration(current Configuration, currentIndex uint64, command ConfigurationChangeCommand, id ServerID, addr ServerAddress, prevIndex uint64) (Configuration, error) {
+	return nextConfiguration(current, currentIndex, configurationChangeRequest{command: command, serverID: id, serverAddress: addr, prevIndex: prevIndex})
+}
+
+func VerifCheckConfiguration(c Configuration) error { return checkConfiguration(c) }
+
+
+// ---- compaction arithmetic (C11) ----
+
+func (r *Raft) VerifCompactLogsWithTrailing(snapIdx, lastLogIdx, trailing uint64) error {
+	return r.compactLogsWithTrailing(snapIdx, lastLogIdx, trailing)
+}
+
+// ---- handlers on a Raft without goroutines (C04, C06) ----
+
+// VerifNewRaftNoStart builds a Raft exactly as NewRaft does but starts no goroutine.
+func VerifNewRaftNoStart(conf *Config, fsm FSM, logs LogStore, stable StableStore, snaps SnapshotStore, trans Transport) (*Raft, error) {
+	c := *conf
+	c.skipStartup = true
+	return NewRaft(&c, fsm, logs, stable, snaps, trans)
+}
+
+// VerifProcessRPC runs the RPC handler synchronously and returns its response.
+func (r *Raft) VerifProcessRPC(cmd interface{}) (interface{}, error) {
+	ch := make(chan RPCResponse, 1)
+	r.processRPC(RPC{Command: cmd, RespChan: ch})
+	select {
+	case resp := <-ch:
+		return resp.Response, resp.Error
+	default:
+		return nil, nil
+	}
+}
+
+func (r *Raft) VerifSetState(s RaftState) { r.raftState.setState(s) }
+
+func (v *VerifCommitment) Dump() (map[ServerID]uint64, uint64, uint64) {
+	m := map[ServerID]uint64{}
+	for k, x := range v.c.matchIndexes {
+		m[k] = x
+	}
+	return m, v.c.commitIndex, v.c.startIndex
+}
